@@ -31,7 +31,8 @@ Record nb := { nsys : sys; npw : list route }.
 Record st := {
   neighbors : cfgmap;        (* Configuration.neighbors *)
   stale : cfgmap;            (* ParseNeighbor.neighbors / _neighbors: only cleared by _commit_reload *)
-  peers : amap Z Z;          (* Reactor._peers: name -> parameters of peer.neighbor *)
+  peers : amap Z (Z * option Z);   (* Reactor._peers: name -> (parameters of peer.neighbor, parameters of
+                                      peer._neighbor while a re-establishing reload waits for the session to cycle) *)
   ribs : amap Z nb           (* RIB._cache *)
 }.
 
@@ -103,8 +104,10 @@ Definition prev_routes (s : st) (n : Z) : list route :=
    same parameters: Peer.reconfigure = replace_reload(previous routes, new routes), at once when the
      session is down (whatever the FSM state), at the top of the next Peer._main iteration when it is
      established (taken at once here); Neighbor.previous is consumed.
-   other parameters: Peer.reestablish = teardown 3, Peer._reset (reset_rib, neighbor hand-over; taken at
-     once here); the withdraws of replace_restart are owed at the next establishment.
+   other parameters: Peer.reestablish = teardown 3; with fix_eager the delta is applied at once and the
+     new definition waits in peer._neighbor until the session cycles (Peer._reset = a Drop of the
+     history: reset_rib and the hand-over); on the older trees the teardown is taken at once and the
+     withdraws of replace_restart are owed at the next establishment.
    The withdraws still owed from an earlier reload (the session has not come up since) hang on the
    Neighbor.previous of the definition that is being replaced: the code as it is loses them
    (Neighbor.previous of the NEW definition only names the definition just replaced). *)
@@ -113,13 +116,13 @@ Definition commit_nb (fx : fixes) (s : st) (n : Z) (c : ncfg) (parsed_now : bool
   let owed := (if fix_chain fx then npw b0 else []) ++ prev_routes s n in
   match aget Z.eqb n (peers s) with
   | None => {| nsys := nsys b1; npw := [] |}
-  | Some p =>
+  | Some (p, _) =>
     if p =? nparams c
     then {| nsys := run (rr_ops owed (nroutes c)) (nsys b1);
             (* the loop of Peer._main forgets Neighbor.previous once it has applied it: reload_clears (gen) *)
             npw := if up (nsys b1) && negb reload_clears then leftover owed (nroutes c) else [] |}
     else if fix_eager fx
-    then {| nsys := step (run (rr_ops owed (nroutes c)) (nsys b1)) Drop; npw := [] |}
+    then {| nsys := run (rr_ops owed (nroutes c)) (nsys b1); npw := [] |}
     else {| nsys := step (nsys b1) Drop; npw := leftover owed (nroutes c) |}
   end.
 
@@ -132,9 +135,25 @@ Definition commit_ribs (fx : fixes) (s : st) (committed cfg : cfgmap) : amap Z n
                   end)
         (merge_names (akeys (ribs s)) (akeys committed)).
 
-Definition commit_peers (s : st) (committed : cfgmap) : amap Z Z :=
-  build (fun n => option_map nparams (aget Z.eqb n committed))
+(* new Peer; reconfigure: peer.neighbor is the new definition at once; reestablish: the new definition
+   waits in peer._neighbor (fix_eager; handed over at once on the older trees) *)
+Definition commit_peers (fx : fixes) (s : st) (committed : cfgmap) : amap Z (Z * option Z) :=
+  build (fun n => match aget Z.eqb n committed with
+                  | Some c => Some (match aget Z.eqb n (peers s) with
+                                    | Some (p, _) => if (p =? nparams c) || negb (fix_eager fx) then (nparams c, None)
+                                                     else (p, Some (nparams c))
+                                    | None => (nparams c, None)
+                                    end)
+                  | None => None
+                  end)
         (merge_names (akeys (peers s)) (akeys committed)).
+
+(* Peer._reset: `if self._neighbor: self.neighbor = self._neighbor` *)
+Definition handover (n : Z) (ps : amap Z (Z * option Z)) : amap Z (Z * option Z) :=
+  match aget Z.eqb n ps with
+  | Some (_, Some q) => aset Z.eqb n (q, None) ps
+  | _ => ps
+  end.
 
 (* Configuration.reload() as called by Reactor.reload(); second component = its return value *)
 Definition reload (fx : fixes) (s : st) (o : outcome) : st * bool :=
@@ -152,7 +171,7 @@ Definition reload (fx : fixes) (s : st) (o : outcome) : st * bool :=
         ribs := if fix_defer fx then ribs s else parse_ribs (ribs s) pre |}, false)
   | Parsed cfg =>
     let committed := merge_cfg (stale s) cfg in
-    ({| neighbors := committed; stale := []; peers := commit_peers s committed;
+    ({| neighbors := committed; stale := []; peers := commit_peers fx s committed;
         ribs := commit_ribs fx s committed cfg |}, true)
   end.
 
@@ -180,7 +199,8 @@ Definition rstep (fx : fixes) (s : st) (x : rop) : st :=
   | RibOp n o =>
     if amem Z.eqb n (peers s) then
       match aget Z.eqb n (ribs s) with
-      | Some b => {| neighbors := neighbors s; stale := stale s; peers := peers s;
+      | Some b => {| neighbors := neighbors s; stale := stale s;
+                     peers := match o with Drop => handover n (peers s) | _ => peers s end;
                      ribs := aset Z.eqb n (nb_step b o) (ribs s) |}
       | None => s
       end
@@ -223,4 +243,5 @@ Fixpoint returns (fx : fixes) (ops : list rop) (s : st) : list Z * st :=
 Definition observe (fx : fixes) (ops : list rop) : list Z :=
   let '(steps, s) := returns fx ops st0 in
   steps ++ (-2) :: enc_cfg (neighbors s) ++ (-3) :: akeys (stale s)
-  ++ (-4) :: flat_map (fun e => [fst e; snd e]) (peers s) ++ flat_map enc_nb (ribs s).
+  ++ (-4) :: flat_map (fun e => [fst e; fst (snd e); match snd (snd e) with Some q => q | None => 0 end]) (peers s)
+  ++ flat_map enc_nb (ribs s).
